@@ -382,7 +382,19 @@ func checkCase(c Case) (Outcome, error) {
 	all := append([]FileInfo{{Name: "100_init.sql", Route: "hand", Kinds: []string{"init"}}}, out.Files...)
 	for n := 1; n <= len(all); n++ {
 		out.Windows++
-		r := sb.Run("migrate", "lint", "--dir", "file://m", "--dev-url", dev, "--latest", fmt.Sprint(n), "--format", "{{ json . }}")
+		// the window, the directory and the dev database are given on the command line, or (every other window) by the
+		// selected env of a project file; for the first window of those also on the command line against another value in the env
+		var r cli.Result
+		switch {
+		case n%2 == 1:
+			r = sb.Run("migrate", "lint", "--dir", "file://m", "--dev-url", dev, "--latest", fmt.Sprint(n), "--format", "{{ json . }}")
+		case n == 2:
+			sb.WriteFile("atlas.hcl", fmt.Sprintf("env \"x\" {\n  dev = %q\n  migration {\n    dir = \"file://m\"\n  }\n  lint {\n    latest = %d\n  }\n}\n", dev, len(all)))
+			r = sb.Run("migrate", "lint", "--env", "x", "-c", "file://atlas.hcl", "--latest", fmt.Sprint(n), "--format", "{{ json . }}")
+		default:
+			sb.WriteFile("atlas.hcl", fmt.Sprintf("env \"x\" {\n  dev = %q\n  migration {\n    dir = \"file://m\"\n  }\n  lint {\n    latest = %d\n  }\n}\n", dev, n))
+			r = sb.Run("migrate", "lint", "--env", "x", "-c", "file://atlas.hcl", "--format", "{{ json . }}")
+		}
 		var lj lintJSON
 		if err := json.Unmarshal([]byte(r.Stdout), &lj); err != nil {
 			return out, fmt.Errorf("lint --latest %d: output is not JSON: %v", n, r)
